@@ -2,3 +2,5 @@ import Lm.Generated.Mem
 import Lm.Mem
 import Lm.Inv.Mem
 import Lm.Props.C10
+import Lm.Thpool
+import Lm.Props.C06
